@@ -44,7 +44,20 @@ def lemma_fn(trigger):
     return deco
 
 
-IDENTITY_FNS = {"float_bits": ("float", "int"), "float_from_bits": ("int", "float")}
+IDENTITY_FNS = {"float_bits": ("float", "int"), "float_from_bits": ("int", "float"),
+                "dset": None, "seq_items": None}
+
+
+def dset(d, k, v):
+    """functional dict update with Python's insertion-order semantics (spec helper)"""
+    out = dict(d)
+    out[k] = v
+    return out
+
+
+def seq_items(d):
+    """the items of a list/tuple datum as a list (spec helper)"""
+    return list(d)
 
 
 class SpecFn:
@@ -66,7 +79,10 @@ class SpecFn:
         """args: list of V -> V"""
         ts = []
         for a, tag in zip(args, self.ptags):
-            ts.append(coerce(a, tag))
+            t = coerce(a, tag)
+            if tag in ("int", "bool"):
+                t = S.simp(t)     # canonical index arguments (i + 1 - 1 -> i)
+            ts.append(t)
         return S.V(self.rtag, self.decl(*ts))
 
 
@@ -184,6 +200,8 @@ class SpecRegistry:
             m, n = imp
             if n is None:
                 return ("module", m)
+            if n in IDENTITY_FNS and m == "pyvc.specs":
+                return ("ident", n)
             if m.startswith("spec") or m.startswith("contracts"):
                 return self.lookup(m, n)
         return None
